@@ -111,6 +111,24 @@ def r1_attributes(text, m, ed):
             if unknown:
                 raise RsxError(f"R1: unknown derive(s) {unknown}")
             kept = [x for x in names if x.split("::")[-1] in KEPT_DERIVES]
+            # a FIELD-LESS enum that derives PartialEq: its `==` is structural equality, which Verus only knows when told
+            # (`Structural`). Without it a harmless `if x == E::A` in place of a `match` would make a postcondition unprovable.
+            if "PartialEq" in [x.split("::")[-1] for x in kept] and "Structural" not in kept:
+                mm = re.compile(r"(?:\s|#\[[^\]]*\]|pub(?:\([^)]*\))?)*enum\s+\w+[^{;]*\{").match(m, e)
+                if mm:
+                    ob = mm.end() - 1
+                    d, j = 0, ob
+                    while j < len(m):
+                        if m[j] == "{":
+                            d += 1
+                        elif m[j] == "}":
+                            d -= 1
+                            if d == 0:
+                                break
+                        j += 1
+                    body = m[ob + 1:j]
+                    if "(" not in body and "{" not in body:
+                        kept = kept + ["Structural"]
             if kept == names:
                 continue
             if kept:
